@@ -97,8 +97,17 @@ RAW = z3.String("raw_path")        # request.path(): the raw request path
 ROUTED = z3.String("routed_path")  # request.match_info().as_str(): the requoted path the router matches
 
 
+HTTP_METHODS = ["GET", "POST", "PUT", "DELETE", "PATCH", "HEAD", "OPTIONS", "CONNECT", "TRACE"]
+METHOD = z3.Int("request_method")  # index into HTTP_METHODS (any other value: an extension method)
+
+
+def method_is(name):
+    return METHOD == HTTP_METHODS.index(name) if name in HTTP_METHODS else z3.BoolVal(False)
+
+
 def request_model(it):
     request = Struct("ServiceRequest", {})
+    it.models[("ServiceRequest", "method")] = lambda interp, recv, args: rseval.SymEnum("Method", {m: method_is(m) for m in HTTP_METHODS})
     it.models[("ServiceRequest", "path")] = lambda interp, recv, args: RAW
     it.models[("ServiceRequest", "match_info")] = lambda interp, recv, args: Struct("MatchInfo", {})
     it.models[("MatchInfo", "as_str")] = lambda interp, recv, args: ROUTED
@@ -122,8 +131,39 @@ def check_path_formula(prog, path=None):
     env.define("req", env.lookup("request"))
     pv = it.eval(pinit, env) if path is None else path
     env.define("path", pv)
+    # the other `let`s in front of is_check_path that it may read (e.g. a test on the request method): evaluated from source where they can be
+    for nm, ini in lets_before(fn[3], "is_check_path"):
+        if nm in ("path", "enable_auth", "request", "req"):
+            continue
+        try:
+            env.define(nm, it.eval(ini, env))
+        except (rsparse.Unsupported, KeyError, TypeError, AttributeError):
+            pass
     v = it.eval(init, env)
     return rseval.to_bool(v), pv
+
+
+def lets_before(node, stop):
+    """[(name, init)] of the simple `let name = init` statements met (depth first) before `let <stop>`"""
+    out = []
+
+    def walk(n):
+        if isinstance(n, tuple):
+            if n and n[0] == "let" and len(n) == 5 and isinstance(n[1], tuple) and n[1][0] == "p_bind":
+                if n[1][1] == stop:
+                    return True
+                out.append((n[1][1], n[3]))
+                return False
+            for x in n:
+                if walk(x):
+                    return True
+        elif isinstance(n, list):
+            for x in n:
+                if walk(x):
+                    return True
+        return False
+    walk(node)
+    return out
 
 
 def find_let(node, name):
@@ -164,7 +204,7 @@ def run(tier, seed):
     # ---- S16.1 every registered route under /nacos/ or /rnacos/v1/ (minus the exemptions) is a checked path
     ob = {"engine": "smt", "harness": "s16_1_routes_checked", "encodes": ["web_config::app_config and callees (route registration)",
           "ApiCheckAuthMiddleware::call: is_check_path", "IGNORE_PATH", "API_PATH", "R_NACOS_API_PATH"], "encodes_files": FILES,
-          "bound": "every registered route pattern (both values of enable_no_auth_console, openapi_enable_auth = true) x every path string in its language",
+          "bound": "every registered (route pattern, method) pair (both values of enable_no_auth_console, openapi_enable_auth = true) x every path string in its language; the request method is a symbolic value over the nine standard methods + extension methods",
           "queries": 0, "solver_s": 0.0, "distinct": 0}
     try:
         res, flags, q = routes.extract(prog, "app_config", ["enable_no_auth_console", "openapi_enable_auth"])
@@ -190,19 +230,26 @@ def run(tier, seed):
             if not feasible:
                 continue
             for pat, method, handler in rts:
-                if pat in seen:
+                if (pat, method) in seen:
                     continue
-                seen.add(pat)
+                seen.add((pat, method))
                 if not (pat.startswith("/nacos/") or pat.startswith("/rnacos/v1/")) or pat in EXEMPT:
                     continue
                 n_routes += 1
                 s.push()
                 s.add(z3.InRe(path, routes.pattern_to_re(pat, raw=uses_raw)), z3.Not(chk))
+                if method != "*":
+                    if method not in HTTP_METHODS:
+                        raise rsparse.Unsupported("route %s registers the method %r" % (pat, method))
+                    s.add(method_is(method))
                 r = solve(s, timer)
                 if r == z3.sat:
                     w = s.model().eval(path, model_completion=True).as_string()
-                    ob.update({"verdict": "violation", "message": "route %s (%s %s) reaches its handler on path %r without the auth check" % (pat, method, handler, w),
-                               "counterexample": {"route": pat, "path": w}, "tags": ["unchecked-route"],
+                    mi = s.model().eval(METHOD, model_completion=True).as_long()
+                    wm = HTTP_METHODS[mi] if 0 <= mi < len(HTTP_METHODS) else "an extension method"
+                    ob.update({"verdict": "violation", "message": "route %s (%s %s) reaches its handler on path %r (request method %s) without the auth check" % (pat, method, handler, w, wm),
+                               "counterexample": {"route": pat, "path": w, "method": wm}, "tags": ["unchecked-route"],
+                               "e2e_requests": [{"method": wm, "path": w, "expect_forbidden": False}] if (mi in range(len(HTTP_METHODS)) and all(32 < ord(c_) < 127 for c_ in w)) else None,
                                "cases": [{"kind": "route_match_requoted", "route": pat, "path": w, "expect": True}, {"kind": "api_check_path", "path": w, "expect": False}] if uses_raw else []})
                     verdict = "violation"
                     s.pop()
@@ -237,7 +284,7 @@ def run(tier, seed):
         if verdict == "discharged":
             ob["verdict"] = "discharged"
             ob["distinct"] = n_routes
-        ob["sample"] = {"routes_examined": n_routes, "example": sorted(seen)[:5], "is_check_path": str(z3.simplify(chk))[:400]}
+        ob["sample"] = {"routes_examined": n_routes, "example": sorted("%s %s" % (m_, p_) for p_, m_ in seen)[:5], "is_check_path": str(z3.simplify(chk))[:400]}
     except rsparse.Unsupported as e:
         ob.update({"verdict": "inconclusive", "message": "encoder met source it cannot encode: %s" % e})
     ob["queries"] = timer[1]
@@ -375,7 +422,7 @@ def validate(prog, seed, k):
                     w = p + "/"
                 elif r < 0.45:
                     w = "/x" + p
-            exp = z3.is_true(z3.simplify(z3.substitute(chk, (path, z3.StringVal(w)))))
+            exp = z3.is_true(z3.simplify(z3.substitute(chk, (path, z3.StringVal(w)), (METHOD, z3.IntVal(0)))))  # the native predicate knows no method: GET
             cases.append({"kind": "api_check_path", "path": w, "expect": exp})
         rr = webreplay.run_cases("C16", "validate", cases, "translator validation")
         if rr["outcome"] == "passed":
